@@ -19,7 +19,7 @@ def histories(obs):
 
 class C11(EngineProp):
     id = 'C11'
-    lean_modules = ['RSocketModel.Props.C11']
+    lean_modules = ['RSocketModel.Props.C11', 'RSocketModel.Props.C11Source']
     profiles = ['loss']
     length = (3, 22)
     technique = 'Lean 4 proof (stop_all over the stream table, any table content) + event-level differential correspondence with loss/close injected at any point'
